@@ -57,8 +57,8 @@ class Ctx:
         self.max_depth = max_depth
         self.notes = []           # free-form notes (stubs used etc.)
         self.inputs = {}          # name -> z3 const (declared inputs)
-        self._solver = None
-        self._synced = 0
+        self._decided = {}        # z3 ast id -> decision (cache; ids are stable while the ast is alive)
+        self._keep = []
 
     # ---- naming
     def fresh(self, name, sort='real'):
@@ -100,10 +100,15 @@ class Ctx:
             return True
         if z3.is_false(expr):
             return False
+        eid = expr.get_id()
+        if eid in self._decided:          # same condition already decided on this path
+            return self._decided[eid]
         if self.pos < len(self.replay):
             taken = self.replay[self.pos]
             self.pos += 1
             self.decisions.append((expr, taken))
+            self._decided[eid] = taken
+            self._keep.append(expr)
             return taken
         if len(self.decisions) >= self.max_depth:
             raise BudgetExceeded()
@@ -122,6 +127,8 @@ class Ctx:
         self.replay = list(self.replay[:self.pos]) + [taken]
         self.pos += 1
         self.decisions.append((expr, taken))
+        self._decided[eid] = taken
+        self._keep.append(expr)
         return taken
 
 
